@@ -263,13 +263,31 @@ impl TlSpec {
     }
 
     pub fn builder(&self) -> TimelineConfiguration<PKeyframeData> {
-        let mut b = P::timeline()
-            .duration_seconds(self.timing.cycle)
-            .delay_seconds(self.timing.delay)
-            .repeat(self.timing.rep.real())
-            .reverse(self.timing.reverse)
-            .default_easing(real_easing(self.default_easing));
-        for kf in &self.kfs {
+        self.builder_ordered(0)
+    }
+
+    /// The same configuration with the setters called in a different place relative to the keyframes:
+    /// 0 = all settings first (the usual way), 1 = all keyframes first, then the settings, 2 = the first keyframe,
+    /// then the settings, then the remaining keyframes, 3 = keyframes first, settings in reverse order, and the
+    /// default easing set twice (a wrong one first).
+    pub fn builder_ordered(&self, mode: u8) -> TimelineConfiguration<PKeyframeData> {
+        let settings = |b: TimelineConfiguration<PKeyframeData>, reverse_order: bool| {
+            if reverse_order {
+                b.default_easing(real_easing(if self.default_easing == 0 { 3 } else { 0 }))
+                    .default_easing(real_easing(self.default_easing))
+                    .reverse(self.timing.reverse)
+                    .repeat(self.timing.rep.real())
+                    .delay_seconds(self.timing.delay)
+                    .duration_seconds(self.timing.cycle)
+            } else {
+                b.duration_seconds(self.timing.cycle)
+                    .delay_seconds(self.timing.delay)
+                    .repeat(self.timing.rep.real())
+                    .reverse(self.timing.reverse)
+                    .default_easing(real_easing(self.default_easing))
+            }
+        };
+        let kfb = |kf: &Kf| {
             let mut kb = P::keyframe(kf.pos);
             if let Some(a) = kf.a {
                 kb = kb.a(a);
@@ -283,7 +301,20 @@ impl TlSpec {
             if let Some(e) = kf.easing {
                 kb = kb.easing(real_easing(e));
             }
-            b = b.keyframe(kb);
+            kb
+        };
+        let mut b = P::timeline();
+        if mode == 0 {
+            b = settings(b, false);
+        }
+        for (i, kf) in self.kfs.iter().enumerate() {
+            b = b.keyframe(kfb(kf));
+            if mode == 2 && i == 0 {
+                b = settings(b, false);
+            }
+        }
+        if mode == 1 || mode == 3 || (mode == 2 && self.kfs.is_empty()) {
+            b = settings(b, mode == 3);
         }
         b
     }
